@@ -167,6 +167,71 @@ def decls(header, abi):
     return out
 
 
+
+# ------------------------------------------------------------------------------------------------ JS leg
+# "everywhere" includes the managed side: the generated JS must write is_ok = 1 exactly for a present value
+# (also for payloads that are falsy in JS: 0, 0.0, false, 0n) and read it back the same way. The machinery is C08's
+# (stub wasm module + rustc's own bytes as ground truth), driven with option-heavy structs and biased payloads.
+
+def option_structs(rng, n):
+    import c08
+    structs = []
+    for k in range(n):
+        fields = []
+        for _ in range(rng.randint(1, 5)):
+            c = rng.random()
+            if c < 0.7:
+                fields.append(("opt", ("prim", rng.choice(["u8", "i16", "u32", "i64", "u64", "f32", "f64", "bool", "DiplomatChar", "usize", "i8"]))))
+            elif c < 0.8:
+                fields.append(("opt", ("enum",)))
+            elif c < 0.9 and structs:
+                fields.append(("opt", ("struct", rng.randrange(len(structs)))))
+            else:
+                fields.append(("prim", rng.choice(list(c08.PRIMS))))
+        structs.append(fields)
+    return structs
+
+
+def js_leg(chk, tier, seed):
+    import c08
+    nb = 24 if tier == "thorough" else 3
+    orig = c08.gen_value
+
+    def biased(rng, structs, f, ctx):
+        # half of all present primitive payloads are the JS-falsy value of their type
+        if f[0] == "opt":
+            return None if rng.random() < 0.3 else ("some", biased(rng, structs, f[1], ctx))
+        if f[0] == "prim" and rng.random() < 0.5:
+            return 0.0 if c08.PRIMS[f[1]][1] is None else 0
+        if f[0] == "struct":
+            return [biased(rng, structs, g, ctx) for g in structs[f[1]]]
+        return orig(rng, structs, f, ctx)
+    c08.gen_value = biased
+    try:
+        results = pmap(lambda bi: c08.run_batch("c10js/%s" % seed, bi, 10, 6, struct_gen=option_structs), range(nb))
+    finally:
+        c08.gen_value = orig
+    st = {"js_option_fields_written": 0, "js_option_params": 0, "js_batches": nb, "js_falsy_some_payloads": 0}
+    pat = re.compile(r"option flag byte|is_ok byte at|flattened argument for \S*\.is_ok ")
+    for bi, r in enumerate(results):
+        for m in r["inconc"]:
+            chk.inconc("js batch %d: %s" % (bi, m))
+        st["js_option_fields_written"] += r["st"]["write_checks_spec"] + r["st"]["flatten_checks_legacy"]
+        st["js_option_params"] += r["st"]["option_param_checks"]
+        seen = set()
+        for tup in r["viol"]:
+            cid, abi, msg, w = tup[:4]
+            tag = tup[4] if len(tup) > 4 else None
+            if tag != "option-arm" and not pat.search(msg):
+                continue            # layout / calling-convention matters are C08's
+            sig = (cid.split("#")[0], abi, msg[:40])
+            if sig in seen:
+                continue
+            seen.add(sig)
+            chk.violation("js_b%d_%s_%s" % (bi, cid.replace("#", "v"), abi), "js.abi=%s %s: %s" % (abi, cid, msg), w)
+    return st
+
+
 def main(tier, seed):
     chk = Check("C10", tier, seed, "exploration")
     thorough = tier == "thorough"
@@ -219,13 +284,14 @@ def main(tier, seed):
             d = r.get("diff")
             summ = "program p%d stage=%s: " % (i, r["stage"]) + ("event %d expected `%s` observed `%s`" % d if d else str(r.get("reports") or r.get("detail"))[:400])
             chk.violation("p%d" % i, summ, api.witness(r))
-    chk.evaluations = stats["calls"] + stats["size_probes"] + stats["declaration_pairs_compared"]
+    stats.update(js_leg(chk, tier, seed))
+    chk.evaluations = stats["calls"] + stats["size_probes"] + stats["declaration_pairs_compared"] + stats["js_option_fields_written"] + stats["js_option_params"]
     chk.distinct = kinds
     chk.rule = ("per program: 10-16 Option pairs over {13 primitives, enum, struct, struct with DiplomatOption fields} in parameter and return position and "
                 "8-12 Result/DiplomatResult pairs over arms {unit, u8, u64, f32, bool, enum, struct, Box<opaque>}; both members of a pair are called 3 times "
                 "with the same scripted argument and return values (both arms); the C driver reads the flag byte raw (anything but 0/1 is reported), prints "
                 "sizeof(<abi>_result) next to Rust's size_of (must both equal the layout model: unit arms add no payload), NULL-ness of Option<&T>/Option<Box<T>>; "
-                "declarations of pair members are compared textually after normalising the function name. distinct_nontrivial = distinct paired return types.")
+                "declarations of pair members are compared textually after normalising the function name. JS leg: option-heavy structs and Option parameters/returns through the generated JS (both js.abi values) against rustc's bytes, half of the present payloads being JS-falsy (0, 0.0, false); only flag/arm disagreements are reported here. distinct_nontrivial = distinct paired return types.")
     chk.extra = dict(stats, programs=nprog)
     ok = [r for r in results if r["status"] == "ok"]
     if ok:
